@@ -2,17 +2,20 @@
 
 CHECK = {
     "harnesses": [
-        # ellipsoid method: plain flavour, < 1 ms per case
-        {"exe": "c03_sharp_minimum", "flavour": "plain", "cases": (60000, 3000000), "procs": (2, 4),
+        # ellipsoid method: < 1 ms per case
+        {"exe": "c03_sharp_minimum", "flavour": "plain", "cases": (100000, 3000000), "procs": (2, 2),
          "subs": ["ellipsoid"], "args": ["--sub", "ellipsoid"]},
-        # rqb / fpba1 / fpba2 run under ASan (finding F10), bundle::max_size in 5..100: ~0.5 s per case there
-        {"exe": "c03_sharp_minimum", "flavour": "asan", "cases": (600, 14000), "procs": (5, 8),
+        # rqb / fpba1 / fpba2, bundle::max_size in 5..100: ~25 ms per case
+        {"exe": "c03_sharp_minimum", "flavour": "plain", "cases": (3000, 80000), "procs": (3, 4),
          "subs": ["bundle"], "args": ["--sub", "bundle"]},
-        # bundle::max_size in 2..4 (overflows immediately while F10 is open): a process of its own
-        {"exe": "c03_sharp_minimum", "flavour": "asan", "cases": (100, 3000), "procs": (1, 2),
+        # bundle::max_size in 2..4, the sizes that overflowed before the fix of finding F10
+        {"exe": "c03_sharp_minimum", "flavour": "plain", "cases": (1000, 20000), "procs": (1, 1),
          "subs": ["bundle-small"], "args": ["--sub", "bundle-small"]},
+        # ASan share of the bundle solvers (regression guard for F10; ~0.3 s per case there)
+        {"exe": "c03_sharp_minimum", "flavour": "asan", "cases": (120, 1500), "procs": (1, 1),
+         "subs": ["bundle-asan"], "args": ["--sub", "bundle-asan"]},
     ],
-    "min_nontrivial": (20000, 500000),
+    "min_nontrivial": (40000, 1000000),
     "timeout": (1500, 7200),
     "rule": ("f(x) = |A(x-x*)|_1, |A(x-x*)|_inf or their sum, + mu/2|x-x*|^2 + f*, A (m x n, n in 1..8, m in n..2n) = U diag(sigma) V' built from the SVD of a "
              "generated Gaussian matrix with sigma_min = s*required (s in [1.05,3], required = 1, or sqrt(m) for the pure l_inf family so that "
@@ -25,9 +28,9 @@ CHECK = {
     "assumptions": ["harness-side function / exact sub-gradient and the long double reference gap are correct (cross-checked against each other on every case)",
                     "Eigen's JacobiSVD for building A and for re-checking sigma_min",
                     "for the pure l_inf family sigma_min >= sqrt(m) is generated, which is what makes the stated precondition f(x)-f* >= |x-x*|_2 hold"],
-    "technique": "property-based testing (rapidcheck) against an analytically known optimum planted in the generated instance; ASan for the bundle solvers",
-    "level_text": ("Generated-input exploration: tens of thousands of ellipsoid solves and hundreds (quick) to ten thousand (thorough) bundle solves under "
-                   "AddressSanitizer on generated sharp-minimum instances, every reported convergence compared with the known (x*, f*). Held on everything "
+    "technique": "property-based testing (rapidcheck) against an analytically known optimum planted in the generated instance; an ASan share for the bundle solvers",
+    "level_text": ("Generated-input exploration: 1e5 (quick) to millions (thorough) of ellipsoid solves and thousands to 1e5 bundle solves (a share of them "
+                   "under AddressSanitizer) on generated sharp-minimum instances, every reported convergence compared with the known (x*, f*). Held on everything "
                    "generated, no claim beyond that."),
     "level_note": ("trusted: harness-side function and reference, Eigen SVD, rapidcheck, ASan runtime; the framework's 10x band applies: a gap between 1x and 10x "
                    "the stated bound is counted borderline (the evidence reports the worst gap/bound ratio per solver)"),
